@@ -3,7 +3,6 @@ package c08
 import (
 	"fmt"
 	"regexp"
-	"sort"
 	"strings"
 
 	"github.com/krotik/ecal/parser"
@@ -122,18 +121,6 @@ func isZ(n *parser.ASTNode) bool {
 	return n.Name == parser.NodeIDENTIFIER && len(n.Children) == 0 && len(n.Meta) == 0 && n.Token != nil && n.Token.Val == "z"
 }
 
-type nodeRef struct {
-	n, parent *parser.ASTNode
-	idx       int
-	size      int
-}
-
-func listNodes(root *parser.ASTNode) []nodeRef {
-	var res []nodeRef
-	walk(root, func(n, p *parser.ASTNode, i int) { res = append(res, nodeRef{n, p, i, countNodes(n)}) })
-	return res
-}
-
 // subCats refines the failure category so that shrinking does not wander
 // from one root cause to another: the parser's error kind for unparseable
 // output; for non-idempotent output whether lines of the first print are
@@ -194,7 +181,7 @@ func lineCounts(s string) (blank, nonblank int) {
 
 // shrink returns a minimal tree that still fails like orig.
 func shrink(t *parser.ASTNode, orig *failure) *parser.ASTNode {
-	budget := 400
+	budget := 1500
 	cat := orig.cat
 	sub := subCat(orig)
 	fails := func(x *parser.ASTNode) bool {
@@ -208,27 +195,35 @@ func shrink(t *parser.ASTNode, orig *failure) *parser.ASTNode {
 	cur := copyTree(t)
 	for changed := true; changed && budget > 0; {
 		changed = false
-		// (1) a sub-tree that is a program of its own, smallest first
-		refs := listNodes(cur)
-		sort.SliceStable(refs, func(i, j int) bool { return refs[i].size < refs[j].size })
-		for _, r := range refs {
-			if r.parent == nil || notStandalone[r.n.Name] {
-				continue
+		// (1) descend into a sub-tree that is a program of its own and fails alike
+		for budget > 0 {
+			var cands []*parser.ASTNode
+			var collect func(n *parser.ASTNode)
+			collect = func(n *parser.ASTNode) {
+				for _, ch := range n.Children {
+					ok := !notStandalone[ch.Name] &&
+						!(ch.Name == parser.NodeSTATEMENTS && len(ch.Children) < 2) &&
+						!(n.Name == parser.NodeIDENTIFIER && ch.Name == parser.NodeIDENTIFIER)
+					if ok {
+						cands = append(cands, ch)
+					} else {
+						collect(ch)
+					}
+				}
 			}
-			if r.n.Name == parser.NodeSTATEMENTS && len(r.n.Children) < 2 {
-				continue
+			collect(cur)
+			found := false
+			for _, cand := range cands {
+				if fails(cand) {
+					cur = cand
+					found = true
+					changed = true
+					break
+				}
 			}
-			if r.parent.Name == parser.NodeIDENTIFIER && r.n.Name == parser.NodeIDENTIFIER {
-				continue // a path segment
-			}
-			if fails(r.n) {
-				cur = r.n
-				changed = true
+			if !found {
 				break
 			}
-		}
-		if changed {
-			continue
 		}
 		// (2) local simplifications in one pre-order sweep
 		try := func(mut func(cp *parser.ASTNode, at []int) bool, at []int) bool {
@@ -494,6 +489,11 @@ func opSkeleton(n *parser.ASTNode) string {
 // classify derives the finding key from the minimal failing tree m and its
 // failure f.
 func classify(m *parser.ASTNode, f *failure) string {
+	if countNodes(m) > 40 {
+		// shrinking did not get anywhere near a minimal case: no feature of
+		// the tree can be blamed
+		return "unclassified:" + f.cat
+	}
 	mc := countMeta(m)
 	if f.cat == "pp-panic" {
 		return "pp-" + f.panicKey
